@@ -1,0 +1,69 @@
+//go:build verif
+
+// Contracts for the deductive checks under /verif (comment-only; no code).
+
+package filters
+
+// ---- C42: IPIP-484 filter semantics -----------------------------------------------------------
+// hasCode(ps, code): some protocol of the list has that code
+//@ macro hasCode(ps, code) = exists(j, 0, len(ps), ps[j].Code == code)
+// hasAny(ps, fs): some filter protocol occurs in the list
+//@ macro hasAny(ps, fs) = exists(i, 0, len(fs), exists(j, 0, len(ps), ps[j].Code == fs[i].Code))
+
+//@ func containsProtocol
+//@   prop C42
+//@   arith int
+//@   safety index
+//@   modifies nothing
+//@   loop 0 invariant[none_so_far] forall(j, 0, rangeindex + 1, protos[j].Code != proto.Code)
+//@   ensures[found_iff_present] result == hasCode(protos, proto.Code)
+//@ func containsAny
+//@   prop C42
+//@   arith int
+//@   safety index
+//@   modifies nothing
+//@   loop 0 invariant[none_so_far] forall(i, 0, rangeindex + 1, !hasCode(protocols, filters[i].Code))
+//@   ensures[any_iff_some_filter_matches] result == hasAny(protocols, filters)
+
+// protocolsAllowed: no filter allows everything; otherwise some filter value equals (case-insensitively)
+// some protocol of the peer, or is "unknown" while the peer lists no protocol
+//@ spec foldEq(a string, b string) bool
+//@ func ext strings.EqualFold
+//@   ensures result == foldEq(s, t)
+//@ macro allowedBy(peer, flt) = len(flt) == 0 || exists(i, 0, len(flt), (flt[i] == "unknown" && len(peer) == 0) || exists(j, 0, len(peer), foldEq(peer[j], flt[i])))
+//@ func protocolsAllowed
+//@   prop C42
+//@   arith int
+//@   safety index
+//@   modifies nothing
+//@   loop 0 invariant[no_filter_matched_so_far] forall(i, 0, rangeindex + 1, !(filterProtocols[i] == "unknown" && len(peerProtocols) == 0) && forall(j, 0, len(peerProtocols), !foldEq(peerProtocols[j], filterProtocols[i])))
+//@   loop 1 invariant[no_protocol_matched_so_far] forall(j, 0, rangeindex + 1, !foldEq(peerProtocols[j], filterProtocol))
+//@   ensures[allowed_iff_rule] result == allowedBy(peerProtocols, filterProtocols)
+
+// applyFilters: the decision table of IPIP-484
+//@ func ext slices.Contains
+// applyAddrFilter: an address is kept iff it matches no negative filter and, when positive filters
+// exist, at least one of them; kept addresses keep their order (they are appended as visited)
+//@ func ext (github.com/multiformats/go-multiaddr.Multiaddr).Protocols
+//@ func ext github.com/multiformats/go-multiaddr.ProtocolWithName
+//@ func ext strings.HasPrefix
+//@ func applyAddrFilter
+//@   prop C42
+//@   arith int-assumed
+//@   safety index
+//@   modifies nothing
+//@   ensures[no_filter_returns_the_input] len(filterAddrsQuery) == 0 ==> result == addrs
+//@   site[kept_address_passes_both_filters] builtin:append#2 : len(arg1) == 1 && arg1[0] == addr && !res("call:containsAny#0", 0) && (len(positiveFilters) == 0 || (called("call:containsAny#1") && res("call:containsAny#1", 0)))
+//@   site[negative_filters_checked_on_this_address] call:containsAny#0 : arg0 == res("call:Protocols#0", 0) && arg1 == negativeFilters
+//@   site[positive_filters_checked_on_this_address] call:containsAny#1 : arg0 == res("call:Protocols#0", 0) && arg1 == positiveFilters
+//@   loop 1 continue[dropped_only_if_excluded] called("builtin:append#2") || res("call:containsAny#0", 0) || (len(positiveFilters) > 0 && called("call:containsAny#1") && !res("call:containsAny#1", 0))
+//@ func applyFilters
+//@   prop C42
+//@   arith int
+//@   requires provider != nil
+//@   modifies provider.Addrs
+//@   ensures[no_filter_keeps_everything] len(filterAddrs) == 0 && len(filterProtocols) == 0 ==> result == provider && provider.Addrs == old(provider.Addrs)
+//@   ensures[protocol_filter_decides_first] !allowedBy(provider.Protocols, filterProtocols) ==> result == nil && provider.Addrs == old(provider.Addrs)
+//@   ensures[no_addr_filter_keeps_addrs] allowedBy(provider.Protocols, filterProtocols) && len(filterAddrs) == 0 ==> result == provider && provider.Addrs == old(provider.Addrs)
+//@   ensures[addr_filter_applied] called("call:applyAddrFilter#0") ==> (len(res("call:applyAddrFilter#0", 0)) == 0 ==> result == nil && provider.Addrs == old(provider.Addrs)) && (len(res("call:applyAddrFilter#0", 0)) > 0 ==> result == provider && provider.Addrs == res("call:applyAddrFilter#0", 0))
+//@   site[filters_the_providers_own_addresses] call:applyAddrFilter : arg0 == provider.Addrs && arg1 == filterAddrs
